@@ -25,7 +25,9 @@ def mc(ctx):
     ctx.cov["mc_noloss_distinct"] = r.distinct
     cfgd = open(os.path.join(vlib.VERIF, "spec", "ContainerProto_MCD.cfg")).read()
     if ctx.quick():
+        # quick: one call, invariants only (liveness under crash/destroy is checked in the thorough tier)
         cfgd = cfgd.replace("MaxCalls = 2", "MaxCalls = 1").replace('{"ping", "open", "exec"}', '{"ping", "exec"}')
+        cfgd = "\n".join(l for l in cfgd.splitlines() if not l.startswith("PROPERTIES")) + "\n"
     r = ctx.tlc("ContainerProto", cfg=cfgd, workers=4, timeout=2400)
     ctx.tlc_ok("ContainerProto MC (destroy/crash)", r)
     ctx.cov["mc_loss_distinct"] = r.distinct
